@@ -90,7 +90,15 @@ func c16Gen(r *proto.Rng) c16Case {
 	seen := map[string]bool{}
 	for len(e.Values) < n {
 		v := c16Value(r)
-		if len(e.Values) > 0 && r.Chance(1, 4) {
+		if len(e.Values) > 0 && r.Chance(1, 8) {
+			// a value that repeats the enum's own name in front of another value (protobuf style: STATUS_ACTIVE next to ACTIVE)
+			base := strings.TrimLeft(e.Name, "_")
+			w := proto.Pick(r, e.Values)
+			v = proto.Pick(r, []string{strings.ToUpper(base) + "_" + w, base + "_" + w, strings.ToUpper(base) + "_" + strings.ToUpper(w), base + w})
+			if strings.HasPrefix(v, "__") || c16Reserved[v] || v == "" || (v[0] >= '0' && v[0] <= '9') {
+				continue
+			}
+		} else if len(e.Values) > 0 && r.Chance(1, 4) {
 			v = c16TwinOf(r, proto.Pick(r, e.Values))
 			if strings.HasPrefix(v, "__") || c16Reserved[v] || v == "" || (v[0] >= '0' && v[0] <= '9') {
 				continue
